@@ -150,12 +150,12 @@ Definition send_verdict (s : state) : Z :=      (* 0 ok, 1 shutdown, 2 busy *)
 Definition register (i cb : Z) (s : state) : state :=
   ev (ESent i cb) (set_wire (wire s ++ [(i, cb)]) (set_reqs ((i, cb) :: rmk i (reqs s)) (del_ghost i s))).
 
-Fixpoint take_ids (k : nat) (s : state) : state :=
+Fixpoint take_ids (k : nat) (s : state) : Z * state :=
   match k with
-  | O => s
+  | O => (0, s)
   | S k' => match get_id s with
-            | (Some _, s') => take_ids k' s'
-            | (None, s') => s'
+            | (Some _, s') => let '(n, s'') := take_ids k' s' in (n + 1, s'')
+            | (None, s') => (0, s')
             end
   end.
 
@@ -197,9 +197,13 @@ Definition step (s : state) (o : op) : state :=
          end
     else ev ENoConn s
   | WaitIds n =>
-    let k := Z.min n (max_id s - in_flight s + 1) in
-    let s1 := take_ids (Z.to_nat k) s in
-    if assert_failed s1 then s1 else set_inf (in_flight s1 + k) s1
+    (* available = min(needed, max_request_id - in_flight + 1); it is never negative in the code because
+       in_flight <= max_request_id + 1 always (only this region pushes it past max_request_id) *)
+    let k := Z.max 0 (Z.min n (max_id s - in_flight s + 1)) in
+    let '(taken, s1) := take_ids (Z.to_nat k) s in
+    if taken <? k
+    then set_units (owed s1) (ks_pending s1) (leaked s1 - taken) (spurious s1) s1   (* assert fired: popped ids are lost *)
+    else set_inf (in_flight s1 + k) s1
   | SendCheck i =>
     match lookup i (ghost s) with
     | Some THeld =>
@@ -252,7 +256,10 @@ Definition step (s : state) (o : op) : state :=
         let s1 := match lookup i (ghost s) with
                   | Some TPend => set_bad true (assert_failed s) s      (* response overtook _on_timeout's orphan region *)
                   | Some t => if unit_tag t =? 1 then add_leak (del_ghost i s) else del_ghost i s
-                  | None => if mem i (orphans s) then set_bad true (assert_failed s) s else s   (* _on_timeout overtook process_msg *)
+                  | None => set_bad true (assert_failed s) s
+                    (* i is an orphan again: _on_timeout overtook process_msg between its orphan test and its pop;
+                       (or i is in no container at all: a response nobody asked for -- cannot happen while the
+                       server only answers requests that were sent, see RecvBegin) *)
                   end in
         set_cur None (set_free (free s1 ++ [i]) (highest s1) s1)
       | Some cb =>
@@ -281,9 +288,9 @@ Definition step (s : state) (o : op) : state :=
   | CpNew sess =>
     match cur s with
     | Some (i, r, PDelivered) =>
-      match lookup i (cps s) with
-      | Some _ => s
-      | None => set_cps ((i, (sess, false)) :: cps s) (del_ghost i s)
+      match lookup i (cps s), lookup i (ghost s) with
+      | None, Some TCur => set_cps ((i, (sess, false)) :: cps s) (del_ghost i s)
+      | _, _ => s
       end
     | _ => s
     end
@@ -293,7 +300,13 @@ Definition step (s : state) (o : op) : state :=
       match lookup i (cps s) with
       | Some (_, true) => set_cur None (set_free (free s ++ [i]) (highest s) (set_cps (rmk i (cps s)) s))
       | Some (_, false) => set_cur None s
-      | None => set_cur None (set_free (free s ++ [i]) (highest s) (del_ghost i s))
+      | None =>
+        match lookup i (ghost s) with
+        | Some TCur => set_cur None (set_free (free s ++ [i]) (highest s) (del_ghost i s))
+        | _ => set_cur None (set_bad true (assert_failed s) (set_free (free s ++ [i]) (highest s) s))
+          (* the stream being delivered always carries the TCur mark (set by RecvPop, nobody else touches it);
+             this branch is unreachable and only keeps the step function total *)
+        end
       end
     | _ => s
     end
@@ -379,8 +392,10 @@ Fixpoint unit_tags (g : list (Z * tag)) : Z :=
   match g with [] => 0 | (_, t) :: r => unit_tag t + unit_tags r end.
 
 (* in_flight units, attributed *)
+Definition cur_unit (c : option (Z * Z * phase)) : Z :=
+  match c with Some (_, _, PHeld _) => 1 | _ => 0 end.
 Definition units (s : state) : Z :=
-  zlen (reqs s) + zlen (orphans s) + unit_tags (ghost s) + zlen (erroring s)
+  zlen (reqs s) + zlen (orphans s) + unit_tags (ghost s) + zlen (erroring s) + cur_unit (cur s)
   + owed s + ks_pending s + leaked s - spurious s.
 
 (* the callback registered by the most recent send on stream i, reading the log newest-first *)
